@@ -428,6 +428,7 @@ func (e *cryptoEnum) run() {
 			}
 		}
 	}
+	e.n += cryptoMixRun(e.c, e.mine)
 	e.c.Add("evaluations", e.n)
 }
 
